@@ -1,7 +1,7 @@
 (* C08 — BDD-encoded automata: load/dump, union, intersection, trimming, conversion keep exact languages; no call
    changes the language of an operand. Value-level pool model. Statements only. *)
 From Coq Require Import List NArith Bool.
-From V Require Import Sem Prod Incl TrimDefs TrimProofs Lang ProductDefs ProductProofs PoolDefs PoolProofs ArityPrefix.
+From V Require Import Sem Prod Incl TrimDefs TrimProofs Lang ProductDefs ProductProofs PoolDefs PoolProofs ArityPrefix SharedTable.
 
 (* frame property: an operation of the pool changes no handle but its target (operands keep their languages) *)
 Theorem C08_frame : forall p o h, h <> target o -> plookup (pool_step p o) h = plookup p h.
@@ -38,6 +38,15 @@ Proof. exact td_key_injective. Qed.
 Theorem C08_arity_prefix_guard_needed : td_key 5 64 = td_key 5 0 /\ in_guard 5 64 = false.
 Proof. exact td_key_guard_needed. Qed.
 
+(* the shortcuts available when two BDD automata share their transition table (copies with other final states): union of the final
+   states is exact (the one libvata takes); intersecting the final states is only a lower bound of the intersection *)
+Theorem C08_shared_union_exact : forall A F G t,
+  accepts (with_finals (F ++ G) A) t <-> accepts (with_finals F A) t \/ accepts (with_finals G A) t.
+Proof. exact shared_union_finals_exact. Qed.
+Theorem C08_shared_isect_refuted : exists A F G t,
+  accepts (with_finals F A) t /\ accepts (with_finals G A) t /\ ~ accepts (with_finals (finter F G) A) t.
+Proof. exact shared_isect_finals_refuted. Qed.
+
 Print Assumptions C08_frame.
 Print Assumptions C08_arity_prefix_injective.
 Print Assumptions C08_arity_prefix_guard_needed.
@@ -49,3 +58,5 @@ Print Assumptions C08_gate_sound.
 Print Assumptions C08_union_congr.
 Print Assumptions C08_isect_congr.
 Print Assumptions C08_no_useless.
+Print Assumptions C08_shared_union_exact.
+Print Assumptions C08_shared_isect_refuted.
